@@ -53,7 +53,9 @@ def sample_of(job, k=0):
 # point of view, which is what C05 is about
 # ... and a moved / swapped allocator that then hands out memory it does not own, overlaps live memory or runs over
 # its fixed storage (C01, C03 guards) did not "transfer all its memory" (C12)
-ALSO_RULES_OF = {"C05": ("C16",), "C12": ("C01", "C03")}
+# ... and a stack / iteration allocator that hands out memory overlapping what is still live (C01 guards) after
+# unwinding or switching did not keep "everything allocated before the marker valid" (C06, C07)
+ALSO_RULES_OF = {"C05": ("C16",), "C12": ("C01", "C03"), "C06": ("C01",), "C07": ("C01",)}
 
 
 def run_trace_property(prop, tier, seed, jobs, model_runs=(), assumptions=None, rule=None):
